@@ -72,12 +72,13 @@ impl From<u32> for VarInt { fn from(x: u32) -> (r: VarInt) ensures r.0 == x { Va
 impl vstd::std_specs::convert::FromSpecImpl<u32> for VarInt { open spec fn obeys_from_spec() -> bool { true } open spec fn from_spec(v: u32) -> VarInt { VarInt(v as u64) } }
 impl From<VarInt> for u64 { fn from(x: VarInt) -> (r: u64) ensures r == x.0 { x.0 } }
 impl vstd::std_specs::convert::FromSpecImpl<VarInt> for u64 { open spec fn obeys_from_spec() -> bool { true } open spec fn from_spec(v: VarInt) -> u64 { v.0 } }
-#[derive(Copy, Clone, PartialEq, Eq)] pub enum Code { STREAM_STATE_ERROR, STREAM_LIMIT_ERROR, FRAME_ENCODING_ERROR }
+#[derive(Copy, Clone, PartialEq, Eq)] pub enum Code { STREAM_STATE_ERROR, STREAM_LIMIT_ERROR, FRAME_ENCODING_ERROR, FINAL_SIZE_ERROR }
 pub struct TransportError { pub code: Code }
 impl TransportError {
     pub fn STREAM_STATE_ERROR(_r: &'static str) -> (r: Self) ensures r.code == Code::STREAM_STATE_ERROR { TransportError { code: Code::STREAM_STATE_ERROR } }
     pub fn STREAM_LIMIT_ERROR(_r: &'static str) -> (r: Self) ensures r.code == Code::STREAM_LIMIT_ERROR { TransportError { code: Code::STREAM_LIMIT_ERROR } }
     pub fn FRAME_ENCODING_ERROR(_r: &'static str) -> (r: Self) ensures r.code == Code::FRAME_ENCODING_ERROR { TransportError { code: Code::FRAME_ENCODING_ERROR } }
+    pub fn FINAL_SIZE_ERROR(_r: &'static str) -> (r: Self) ensures r.code == Code::FINAL_SIZE_ERROR { TransportError { code: Code::FINAL_SIZE_ERROR } }
 }
 /// the send half of a stream as far as the glue code here looks at it; `Send::reset` / `SendBuffer::unacked` are proved in units send_stream / send_buffer
 #[derive(Copy, Clone, PartialEq, Eq)] pub enum SendState { Ready, DataSent { finish_acked: bool }, ResetSent }
@@ -243,8 +244,12 @@ impl Recv {
 }
 #[verifier::external_body] pub struct Bytes { inner: Vec<u8> }
 impl View for Bytes { type V = Seq<u8>; uninterp spec fn view(&self) -> Seq<u8>; }
+impl Bytes { #[verifier::external_body] pub fn len(&self) -> (r: usize) ensures r == self@.len() { unimplemented!() } }
 impl Recv {
     #[verifier::external_body] pub fn is_receiving(&self) -> (r: bool) ensures r == !self.reset { unimplemented!() }
+    /// the stream's final size once a FIN or a RESET_STREAM has fixed it (a reset always fixes it)
+    pub uninterp spec fn final_size(&self) -> Option<u64>;
+    #[verifier::external_body] pub fn final_offset(&self) -> (r: Option<u64>) ensures r == self.final_size(), self.reset ==> r.is_some() { unimplemented!() }
     /// whether the stream's final size is still unknown (no FIN seen, not reset)
     pub uninterp spec fn open_ended(&self) -> bool;
     #[verifier::external_body] pub fn final_offset_unknown(&self) -> (r: bool) ensures r == self.open_ended() { unimplemented!() }
@@ -252,7 +257,7 @@ impl Recv {
     #[verifier::external_body] pub fn stop(&mut self) -> (res: Result<(u64, super::code::ShouldTransmit), ClosedStream>)
         requires old(self).wf_spec()
         ensures final(self).wf_spec(), match res {
-            Ok((credits, _)) => !old(self).stopped && final(self).stopped && credits == old(self).end - old(self).assembler.br
+            Ok((credits, _)) => !old(self).stopped && final(self).stopped && credits == (if old(self).reset { 0 } else { old(self).end - old(self).assembler.br })
                 && final(self).end == old(self).end && final(self).assembler.br == old(self).assembler.br && final(self).reset == old(self).reset
                 && final(self).open_ended() == old(self).open_ended(),
             Err(_) => old(self).stopped && *final(self) == *old(self),
@@ -757,7 +762,9 @@ impl StreamsState {
                     // ... and credit is returned at once only for a stream the application has stopped (its data is discarded on arrival)
                     &&& final(self).local_max_data == (if r0.stopped { sat_add(old(self).local_max_data, sat_sub(n, old(self).receive_window_shrink_debt)) } else { old(self).local_max_data })
                 } else {
-                    final(self).fc() == old(self).fc()
+                    // a frame for a reset stream is dropped -- but only if it is consistent with the final size the reset fixed
+                    &&& final(self).fc() == old(self).fc()
+                    &&& (r0.final_size() matches Some(f) ==> frame.offset + frame.data@.len() <= f && (frame.fin ==> frame.offset + frame.data@.len() == f))
                 },
                 None => final(self).fc() == old(self).fc(),
             },
@@ -890,8 +897,13 @@ impl StreamsState {
         ensures
             final(self).receive_window == receive_window.0,
             r == (receive_window.0 > old(self).receive_window),
-            r ==> final(self).local_max_data == sat_add(old(self).local_max_data, (receive_window.0 - old(self).receive_window) as u64)
-                && final(self).receive_window_shrink_debt == old(self).receive_window_shrink_debt,
+            // what the peer may have in flight and unread is local_max_data - debt: it follows the configured window exactly, so an expansion
+            // first cancels debt left over from an earlier shrink and only the remainder is granted as new credit
+            (old(self).local_max_data + receive_window.0 <= u64::MAX && old(self).receive_window_shrink_debt + old(self).receive_window <= u64::MAX) ==>
+                final(self).local_max_data - final(self).receive_window_shrink_debt - receive_window.0
+                    == old(self).local_max_data - old(self).receive_window_shrink_debt - old(self).receive_window,
+            r ==> final(self).local_max_data == sat_add(old(self).local_max_data, sat_sub((receive_window.0 - old(self).receive_window) as u64, old(self).receive_window_shrink_debt))
+                && final(self).receive_window_shrink_debt == sat_sub(old(self).receive_window_shrink_debt, (receive_window.0 - old(self).receive_window) as u64),
             // shrinking never takes back credit already granted: the difference becomes debt repaid out of future read credits
             !r ==> final(self).local_max_data == old(self).local_max_data
                 && final(self).receive_window_shrink_debt == sat_add(old(self).receive_window_shrink_debt, (old(self).receive_window - receive_window.0) as u64),
@@ -942,10 +954,11 @@ impl<'a> RecvStream<'a> {
         requires
             old(self).state.sent_max_data.0 <= old(self).state.local_max_data || old(self).state.local_max_data > VarInt::MAX.0,
         ensures match res {
-            // the application discards what it has not read: exactly that much credit goes back to the connection window, once, and the
-            // stream is kept (marked stopped) for as long as its final size is unknown
+            // the application discards what it has not read: exactly that much credit goes back to the connection window, once (none if a
+            // RESET_STREAM already returned the credit for the whole stream), and the stream is kept (marked stopped) for as long as its
+            // final size is unknown
             Ok(()) => recv_abs(old(self).state.recv, old(self).id) matches Some(r0) && !r0.stopped
-                && final(self).state.local_max_data == sat_add(old(self).state.local_max_data, sat_sub((r0.end - r0.assembler.br) as u64, old(self).state.receive_window_shrink_debt))
+                && final(self).state.local_max_data == sat_add(old(self).state.local_max_data, sat_sub((if r0.reset { 0 } else { r0.end - r0.assembler.br }) as u64, old(self).state.receive_window_shrink_debt))
                 && final(self).state.data_recvd == old(self).state.data_recvd
                 && (r0.open_ended() ==> (recv_abs(final(self).state.recv, old(self).id) matches Some(r1) && r1.stopped && r1.end == r0.end && r1.assembler.br == r0.assembler.br)),
             // unknown or already stopped stream: nothing changes
